@@ -127,7 +127,7 @@ claim('C06',
       "every digit character lands in the 4-bit field given by its rank among the non-blank characters, the destination block is large enough for what mpn_set_str writes (floating-point size estimate), the top limb is non-zero, the scratch block is released on every path. "
       "BOUNDED stand-in for the bases that are no power of two (unit mpz_str_enum, not proof): 19352 structured digit strings (zero runs, (base-1) runs, lengths around the algorithm thresholds up to 4500 digits) in 8 bases: "
       "mpz_set_str == Horner evaluation, mpz_get_str == the digits, sizeinbase within one of the digit count.",
-      TB + "NOT covered: every base that is not a power of two (mpn_sb_get_str / mpn_dc_get_str / mpn_bc_set_str / mpn_dc_set_str: multi-limb division and "
+      TB + "Tiers: the mpz_get_str units and mpn_get_str for base 128 take 5-17 minutes each and run in the THOROUGH tier only (vp check stopped the quick tier after 900 s with them in it); the quick tier runs mpn_get_str / mpn_set_str for the other bases, mpz_sizeinbase, mpz_set_str_b16 and the bounded unit. NOT covered: every base that is not a power of two (mpn_sb_get_str / mpn_dc_get_str / mpn_bc_set_str / mpn_dc_set_str: multi-limb division and "
       "multiplication by powers of the base - needs mathematical integers), mpz_get_str for other bases (beyond the bounded enumeration), mpz_set_str for bases other than 16 incl. the base-0 prefix rules (proof), the mpq/mpf string layers, "
       "mpz_inp_str/out_str, mpz_sizeinbase for other bases. mpn_set_str: 'every digit is below the base' is a precondition, "
       "instantiated at the digit each loop iteration reads; its `for (s = end; s >= str; s--)` header is evaluated as 'stop when s == str' (DESIGN 11.2).")
